@@ -73,7 +73,9 @@ func (c *Chain) ftAbs() (ftState, []string) {
 }
 
 var ftSegs = []string{"home", "docs", "pics", "a", "b", "日本", "x y", "", "s", "50% off", "100%", "a%%b", "%s", "%5d", "tab\there", "quote\"q", "é",
-	"cafe\u0301.txt", "caf\u00e9.txt", "\u212b", "\ufb01le", ".", ".."}
+	"cafe\u0301.txt", "caf\u00e9.txt", "\u212b", "\ufb01le", ".", "..",
+	// white space at the edges of a segment is part of the name (a client that trims it posts elsewhere)
+	"notes.txt ", " lead", " ", "tab\t", "\u30e1\u30e2\u3000", "\n"}
 
 // clientJ: what the client-side message builder puts into MsgPostFile for a plain path
 func clientJ(path string) []string {
